@@ -297,7 +297,7 @@ theorem C20_errors_always_enabled (guard : Bool) (sws : List Switch) (ov : Overr
     have : ¬ severityOf code ≤ LibErrors.SEVERITY_WARNING := by omega
     simp [setAllWarnings, this, initOverrides_false]
   | cons s ss =>
-    simp only [configure] at h
+    simp only [configure, show LibErrors.switchResetsAll = false by decide, Bool.false_eq_true, if_false] at h
     simp [key (s :: ss) initOverrides (initOverrides_false code) h]
 
 /-- EVERY `ERRORis_enabled( CODE )` site of the front end (regenerated list: all of src/express outside error.c) asks about
@@ -414,7 +414,7 @@ theorem C20_unguarded_switch_crashes_witness (ov : Overrides) (name : String) (b
 /-- non-vacuity: a switch list and a diagnostic satisfying the hypotheses above -/
 example : fits (parseFmt (formatOf LibErrors.BAD_IDENTIFIER)) [.str "_abc".toList] = true := by decide
 example : ∃ ov, configure true [⟨.w, "downcast"⟩] = .ok ov := by
-  simp [configure, applySwitches, setWarning]
+  simp [configure, applySwitches, setWarning, show LibErrors.switchResetsAll = false by decide]
   exact ⟨_, rfl⟩
 
 /-! ## who is blamed: the construct a diagnostic names really is the faulty one
